@@ -1,12 +1,33 @@
 import LexVerif.Spec.Decimal
+import LexVerif.Props.TablesParse
+import LexVerif.Proof.FastPathExact
+import LexVerif.Proof.LemireExact
+import LexVerif.Proof.BellSound
 /-!
 # C01 — decimal string→float parsing is correctly rounded (property theorems)
 
 The oracle is `Spec.litBits` (exact rational value, `roundNE`). Theorems about the oracle itself are in
 `Props/RoundNE.lean`; table theorems (Eisel–Lemire powers, small powers, limits) in `Props/TablesParse.lean`.
+
+Algorithm level (models `Model.FastPath`, `Model.Lemire`, tied to the code by the component ops
+`fp`/`cf`/`lm`, see `Model/Ops/ParseAlgos.lean`):
+
+* `fastPath_exact` — **complete**: whenever `try_fast_path` answers, the answer is `roundNE (m·10^e)`, signed;
+* `lemire_sound` — the **full** statement, a `Prop` (not proved: the general range needs the
+  Mushtak–Lemire continued-fraction analysis of the truncated 128-bit table);
+* `lemire_sound_partial` — proved: a zero mantissa, both cut-offs (`q < SMALLEST_POWER_OF_TEN`,
+  `q > LARGEST_POWER_OF_TEN`), and the whole exact-product range `0 ≤ q ≤ 27` for every `w < 2^64`;
+* `lemire_wrapper` — proved: the `many_digits` two-pass wrapper is correct relative to `compute_float`
+  on `w` and `w + 1`;
+* `bellerophon_sound` (`compact` builds) — **complete** on the model: a valid answer is `roundNE` of the true
+  value, truncated mantissas included (every exponent; early exits, error accounting of both multiplications
+  against the *truncated* table, the booked truncation error `8 << min(ctlz+1, 20)` of /repo commit 5dc6041,
+  the `error_is_accurate` decision, the rounding).
 -/
 namespace LexVerif.Props.C01
-open LexVerif.Spec
+open LexVerif.Spec LexVerif.Model LexVerif.Proof.Tables
+open LexVerif.Proof.RoundNE LexVerif.Proof.ExtRound LexVerif.Proof.FastPathExact LexVerif.Proof.Lemire
+open LexVerif.Props.TablesParse
 
 /-- zero mantissa digits give a correctly signed zero whatever the exponent (underflow/overflow clause) -/
 theorem litBits_zero (f : Fmt) (r b : Nat) (l : FloatLit)
@@ -18,5 +39,271 @@ theorem litBits_zero (f : Fmt) (r b : Nat) (l : FloatLit)
 /-- `roundNE` of zero is +0 -/
 theorem roundNE_zero (f : Fmt) (den : Nat) : roundNE f 0 den = 0 := by
   simp [roundNE]
+
+/-! ## the fast path -/
+
+/-- the table theorems give `FastTables` for every radix of a feature set -/
+theorem fastTables_of {S : SmallSet} {f : Fmt} (hpow : FloatPowStmt S f)
+    (hlim : ∀ r ∈ S.radices, limitsOk S f r = true) (hint : IntPowStmt S)
+    {r : Nat} (hr : r ∈ S.radices) (hri : r ∈ S.intRadices) (hpos : 0 < r)
+    (hml : S.mantissaLimit f r ≤ S.f64MantissaLimit r) : FastTables S f r :=
+  { pow := (hpow r hr).2, lim := hlim r hr, int := fun e he => ((hint r hri).2.2 e he).1, rpos := hpos,
+    powSize := (hpow r hr).1, intSize := Int.lt_of_le_of_lt hml (hint r hri).2.1 }
+
+theorem lim_f64 {S : SmallSet} (h : ∀ r ∈ S.radices, (limitsOk S f32 r && limitsOk S f64 r) = true) :
+    ∀ r ∈ S.radices, limitsOk S f64 r = true := fun r hr => by
+  have := h r hr; simp only [Bool.and_eq_true] at this; exact this.2
+theorem lim_f32 {S : SmallSet} (h : ∀ r ∈ S.radices, (limitsOk S f32 r && limitsOk S f64 r) = true) :
+    ∀ r ∈ S.radices, limitsOk S f32 r = true := fun r hr => by
+  have := h r hr; simp only [Bool.and_eq_true] at this; exact this.1
+
+/-- the three `Gen.SmallPowers` instances (feature sets `default`, `radix`/`power-of-two`, `compact`) -/
+def IsSmallSet (S : SmallSet) : Prop := S = SmallSet.Default ∨ S = SmallSet.Radix ∨ S = SmallSet.CompactRadix
+
+theorem fastTables_decimal {S : SmallSet} (hS : IsSmallSet S) :
+    FastTables S f64 10 ∧ FastTables S f32 10 := by
+  rcases hS with h | h | h <;> subst h
+  · exact ⟨fastTables_of small_f64_powers_default (lim_f64 limits_ok_default) small_int_powers_default
+        (by decide) (by decide) (by decide) (by decide),
+      fastTables_of small_f32_powers_default (lim_f32 limits_ok_default) small_int_powers_default
+        (by decide) (by decide) (by decide) (by decide)⟩
+  · exact ⟨fastTables_of small_f64_powers_radix (lim_f64 limits_ok_radix) small_int_powers_radix
+        (by decide) (by decide) (by decide) (by decide),
+      fastTables_of small_f32_powers_radix (lim_f32 limits_ok_radix) small_int_powers_radix
+        (by decide) (by decide) (by decide) (by decide)⟩
+  · exact ⟨fastTables_of small_f64_powers_compact (lim_f64 limits_ok_compact) small_int_powers_compact
+        (by decide) (by decide) (by decide) (by decide),
+      fastTables_of small_f32_powers_compact (lim_f32 limits_ok_compact) small_int_powers_compact
+        (by decide) (by decide) (by decide) (by decide)⟩
+
+/-- **C01.3 `fastPath_exact`** (decimal, binary64): whenever `Number::try_fast_path` answers `Some(v)` — normal
+or disguised fast path, any sign — `v` is the correctly rounded value of `mantissa · 10^exponent`.
+Assumption (stated in `Model.ExtFloat`): hardware `u64 → f64`, `*`, `/` are IEEE round-to-nearest-even. -/
+theorem fastPath_exact_f64 {S : SmallSet} (hS : IsSmallSet S) (expBase : Nat) (n : Num) (v : Nat)
+    (h : FastPath.tryFastPath S FTy.f64 10 expBase n = .some v) :
+    v = roundSigned f64 n.isNegative (powFrac 10 n.exponent n.mantissa).1 (powFrac 10 n.exponent n.mantissa).2 :=
+  LexVerif.Proof.FastPathExact.fastPath_exact layout_f64 (fastTables_decimal hS).1 expBase n v h
+
+/-- the same for binary32 -/
+theorem fastPath_exact_f32 {S : SmallSet} (hS : IsSmallSet S) (expBase : Nat) (n : Num) (v : Nat)
+    (h : FastPath.tryFastPath S FTy.f32 10 expBase n = .some v) :
+    v = roundSigned f32 n.isNegative (powFrac 10 n.exponent n.mantissa).1 (powFrac 10 n.exponent n.mantissa).2 :=
+  LexVerif.Proof.FastPathExact.fastPath_exact layout_f32 (fastTables_decimal hS).2 expBase n v h
+
+/-- the fast path never panics (checked table indices stay inside the tables) -/
+theorem fastPath_no_panic {S : SmallSet} (hS : IsSmallSet S) (F : FTy) (hF : F = FTy.f64 ∨ F = FTy.f32)
+    (expBase : Nat) (n : Num) : FastPath.tryFastPath S F 10 expBase n ≠ .panic := by
+  rcases hF with h | h <;> subst h
+  · exact LexVerif.Proof.FastPathExact.fastPath_no_panic (fastTables_decimal hS).1 expBase n
+  · exact LexVerif.Proof.FastPathExact.fastPath_no_panic (fastTables_decimal hS).2 expBase n
+
+/-- non-vacuity: the fast path does answer — normal (`12345e10`), division (`5e-3`), disguised (`-12345e30`,
+`max_exponent = 22`, shift 8), and declines a mantissa above `2^53` -/
+example : FastPath.tryFastPath SmallSet.Default FTy.f64 10 10 ⟨12345, 10, false, false⟩ = .some 0x42dc11bc59710000 ∧
+    FastPath.tryFastPath SmallSet.Default FTy.f64 10 10 ⟨5, -3, false, false⟩ = .some 0x3f747ae147ae147b ∧
+    FastPath.tryFastPath SmallSet.Default FTy.f64 10 10 ⟨12345, 30, true, false⟩ = .some 0xc703053e72afbcad ∧
+    FastPath.tryFastPath SmallSet.Default FTy.f64 10 10 ⟨2 ^ 53 + 1, 0, false, false⟩ = .none ∧
+    FastPath.tryFastPath SmallSet.Radix FTy.f32 10 10 ⟨16777216, 10, false, false⟩ = .some 0x5c1502f9 := by
+  decide +kernel
+
+/-! ## Eisel–Lemire -/
+
+/-- the two float types the Eisel–Lemire path is instantiated with -/
+def IsLemireFloat (F : FTy) : Prop := F = FTy.f64 ∨ F = FTy.f32
+
+/-- `q` is an `i64` -/
+def IsI64 (q : Int) : Prop := -(2 ^ 63 : Int) ≤ q ∧ q < (2 ^ 63 : Int)
+
+/-- the float obtained by truncating the (un-biased) extended float `fp` — what the slow path starts from -/
+def roundedDown (F : FTy) (fp : ExtendedFloat80) : Nat :=
+  extendedToFloat F (Bellerophon.round F { fp with exp := fp.exp - invalidFp } Bellerophon.roundDown)
+
+/-- an undecided result brackets the value: with `b` the extended float rounded **down** to the float format,
+`b ≤ num/den < next(b)` (in units of the least subnormal, `ival`) -/
+def Bracket (F : FTy) (fp : ExtendedFloat80) (num den : Nat) : Prop :=
+  ival F.fmt (roundedDown F fp) * den ≤ num * 2 ^ L F.fmt ∧
+  num * 2 ^ L F.fmt < ival F.fmt (roundedDown F fp + 1) * den
+
+/-- **C01.5 `lemire_sound` — full statement** (kept as a `Prop`; only `lemire_sound_partial` is proved):
+for every `i64` exponent and every `u64` mantissa, non-lossy `compute_float` never panics and answers either
+with a valid float that is `roundNE (w·10^q)`, or with an invalid-marked extended float that brackets it. -/
+def lemire_sound : Prop :=
+  ∀ F, IsLemireFloat F → ∀ (q : Int) (w : Nat), IsI64 q → w < 2 ^ 64 →
+    ∃ fp, Lemire.computeFloat F q w false = .ok fp ∧
+      (0 ≤ fp.exp → extendedToFloat F fp = roundNE F.fmt (powFrac 10 q w).1 (powFrac 10 q w).2) ∧
+      (fp.exp < 0 → Bracket F fp (powFrac 10 q w).1 (powFrac 10 q w).2)
+
+/-- the part of the `(q, w)` plane covered by `lemire_sound_partial` -/
+def LemirePartialDomain (F : FTy) (q : Int) (w : Nat) : Prop :=
+  w = 0 ∨ q < F.C.smallestPowerOfTen ∨ q > F.C.largestPowerOfTen ∨ (0 ≤ q ∧ q ≤ 27)
+
+theorem ext_zero_of {F p eb} (lay : Layout F p eb) : extendedToFloat F ⟨0, 0⟩ = 0 :=
+  LexVerif.Proof.BinaryCorrect.ext_zero lay
+
+theorem ext_inf_of {F p eb} (lay : Layout F p eb) :
+    extendedToFloat F ⟨0, F.C.infinitePower⟩ = F.fmt.infBits := by
+  have hT : 0 < 2 ^ (p - 1) := Nat.two_pow_pos _
+  have hbits : F.C.bits.toNat = p + eb := by rw [lay.bits]; rfl
+  have hTT : 2 ^ p = 2 * 2 ^ (p - 1) := LexVerif.Proof.Lemire.two_pow_pred (by have := lay.hp; omega)
+  have hpow : 2 ^ (p + eb) = 2 ^ eb * (2 * 2 ^ (p - 1)) := by rw [← hTT, ← Nat.pow_add, Nat.add_comm]
+  have h1 : (2 ^ eb - 1) * 2 ^ (p - 1) < 2 ^ eb * 2 ^ (p - 1) :=
+    Nat.mul_lt_mul_of_pos_right (by have := Nat.two_pow_pos eb; omega) hT
+  have h2 : 2 ^ eb * (2 * 2 ^ (p - 1)) = 2 * (2 ^ eb * 2 ^ (p - 1)) := by ac_rfl
+  have := ext_of_fields F (p - 1) (p + eb) lay.msNat hbits 0 (2 ^ eb - 1) hT
+    (by rw [Nat.add_zero, hpow, h2]; omega) lay.hp64
+  rw [lay.infp, this, Nat.add_zero, lay.fmt]; rfl
+
+theorem lemLayout_of {F : FTy} (hF : IsLemireFloat F) :
+    ∃ p eb sm lg a b, LemLayout F p eb sm lg a b ∧ (27 : Int) ≤ lg := by
+  rcases hF with h | h <;> subst h
+  · exact ⟨_, _, _, _, _, _, lemLayout_f64, by decide⟩
+  · exact ⟨_, _, _, _, _, _, lemLayout_f32, by decide⟩
+
+/-- **C01.5 `lemire_sound_partial`** — proved part of `lemire_sound`: on `LemirePartialDomain` (zero mantissa;
+below `SMALLEST_POWER_OF_TEN`; above `LARGEST_POWER_OF_TEN`; the exact-product range `0 ≤ q ≤ 27` where
+`5^q < 2^64`) and for **every** `w < 2^64`, `compute_float` answers with a *valid* float and that float is
+`roundNE (w·10^q)`.  Missing for the full statement: `q ∈ [−342, −1] ∪ [28, 308]`, where the table row is a
+truncation and correctness of the `lo`/`hi` tests needs the continued-fraction bounds of Mushtak–Lemire. -/
+theorem lemire_sound_partial (F : FTy) (hF : IsLemireFloat F) (q : Int) (w : Nat) (hw : w < 2 ^ 64)
+    (hdom : LemirePartialDomain F q w) :
+    ∃ fp, Lemire.computeFloat F q w false = .ok fp ∧ 0 ≤ fp.exp ∧
+      extendedToFloat F fp = roundNE F.fmt (powFrac 10 q w).1 (powFrac 10 q w).2 := by
+  obtain ⟨p, eb, sm, lg, a, b, LL, hlg⟩ := lemLayout_of hF
+  by_cases hw0 : w = 0
+  · subst hw0
+    refine ⟨⟨0, 0⟩, ?_, Int.le_refl _, ?_⟩
+    · unfold Lemire.computeFloat; rw [if_pos (Or.inl rfl)]; rfl
+    · rw [ext_zero_of LL.lay, LexVerif.Proof.BinaryCorrect.powFrac_zero]
+  · rcases hdom with h | h | h | ⟨h1, h2⟩
+    · exact absurd h hw0
+    · obtain ⟨c1, c2⟩ := cutoff_zero LL q w false hw h
+      exact ⟨_, c1, Int.le_refl _, by rw [c2, ext_zero_of LL.lay]⟩
+    · obtain ⟨c1, c2⟩ := cutoff_inf LL q w false hw0 h
+      refine ⟨_, c1, ?_, by rw [c2, ext_inf_of LL.lay]⟩
+      show 0 ≤ F.C.infinitePower
+      rw [LL.lay.infp]; omega
+    · obtain ⟨qn, rfl⟩ : ∃ qn : Nat, q = (qn : Int) := ⟨q.toNat, by omega⟩
+      obtain ⟨fp, e1, e2, e3⟩ := computeFloat_exact LL qn (by omega) (by omega) w hw0 hw
+      refine ⟨fp, e1, e2, ?_⟩
+      rw [e3]
+      unfold powFrac
+      rw [if_pos (by omega)]
+      simp only [Int.toNat_natCast]
+
+/-- **the `many_digits` wrapper** (`lemire()`): if `compute_float` is right on `w` and on `w + 1`
+(`CFSound`, e.g. by `lemire_sound_partial`), then a *valid* answer of `lemire` for the truncated mantissa `w`
+is `roundNE x` for **every** `x` with `w·10^q ≤ x ≤ (w+1)·10^q` — in particular for the value of the
+untruncated literal.  (`roundNE` is monotone; the wrapper answers only when both passes agree.) -/
+theorem lemire_wrapper (F : FTy) (hF : IsLemireFloat F) (q : Int) (w : Nat) (neg : Bool) (hq : IsI64 q)
+    (hw : w + 1 < 2 ^ 64) (S0 : CFSound F q w) (S1 : CFSound F q (w + 1)) {fp : ExtendedFloat80}
+    (h : Lemire.lemire F ⟨w, q, neg, true⟩ false = .ok fp) (hv : 0 ≤ fp.exp)
+    (num den : Nat) (hd : 0 < den)
+    (hlo : (powFrac 10 q w).1 * den ≤ num * (powFrac 10 q w).2)
+    (hhi : num * (powFrac 10 q (w + 1)).2 ≤ (powFrac 10 q (w + 1)).1 * den) :
+    extendedToFloat F fp = roundNE F.fmt num den := by
+  obtain ⟨p, eb, sm, lg, a, b, LL, _⟩ := lemLayout_of hF
+  exact LexVerif.Proof.Lemire.lemire_wrapper LL q w neg hq.1 hq.2 hw S0 S1 h hv num den hd hlo hhi
+
+/-- `compute_float` never panics: the checked index into `POWER_OF_FIVE_128` is always in range -/
+theorem computeFloat_no_panic (F : FTy) (hF : IsLemireFloat F) (q : Int) (w : Nat) (lossy : Bool) :
+    Lemire.computeFloat F q w lossy ≠ .panic := by
+  obtain ⟨p, eb, sm, lg, a, b, LL, _⟩ := lemLayout_of hF
+  exact LexVerif.Proof.Lemire.computeFloat_no_panic LL q w lossy
+
+/-- the wrapper instantiated on the proved domain: a truncated 19-digit mantissa at `0 ≤ q ≤ 27` -/
+theorem lemire_wrapper_exact_range (F : FTy) (hF : IsLemireFloat F) (q : Int) (hq0 : 0 ≤ q) (hq27 : q ≤ 27)
+    (w : Nat) (neg : Bool) (hw : w + 1 < 2 ^ 64) {fp : ExtendedFloat80}
+    (h : Lemire.lemire F ⟨w, q, neg, true⟩ false = .ok fp) (hv : 0 ≤ fp.exp)
+    (num den : Nat) (hd : 0 < den)
+    (hlo : (powFrac 10 q w).1 * den ≤ num * (powFrac 10 q w).2)
+    (hhi : num * (powFrac 10 q (w + 1)).2 ≤ (powFrac 10 q (w + 1)).1 * den) :
+    extendedToFloat F fp = roundNE F.fmt num den := by
+  have hI : IsI64 q := ⟨by omega, by omega⟩
+  have S : ∀ m, m < 2 ^ 64 → CFSound F q m := by
+    intro m hm fp' h' _
+    obtain ⟨fp2, e1, _, e3⟩ := lemire_sound_partial F hF q m hm (Or.inr (Or.inr (Or.inr ⟨hq0, hq27⟩)))
+    rw [e1] at h'; injection h' with h'; subst h'; exact e3
+  exact lemire_wrapper F hF q w neg hI hw (S w (by omega)) (S (w + 1) hw) h hv num den hd hlo hhi
+
+/-! non-vacuity: `compute_float` evaluated on each part of the proved domain, and one undecided answer -/
+example : LemirePartialDomain FTy.f64 (-343) 5 ∧ LemirePartialDomain FTy.f64 309 5 ∧
+    LemirePartialDomain FTy.f64 27 (2 ^ 64 - 1) ∧ LemirePartialDomain FTy.f32 (-66) 1 := by
+  refine ⟨Or.inr (Or.inl (by decide)), Or.inr (Or.inr (Or.inl (by decide))),
+    Or.inr (Or.inr (Or.inr (by decide))), Or.inr (Or.inl (by decide))⟩
+/-- `9007199254740993 = 2^53 + 1` is a tie at `q = 0` (even neighbour below), `…995` rounds up; the largest
+mantissa at the largest exact exponent; an exponent-cut-off -/
+example : Lemire.computeFloat FTy.f64 0 9007199254740993 false = .ok ⟨0, 1076⟩ ∧
+    Lemire.computeFloat FTy.f64 0 9007199254740995 false = .ok ⟨2, 1076⟩ ∧
+    Lemire.computeFloat FTy.f64 27 (2 ^ 64 - 1) false = .ok ⟨2772357986812930, 1176⟩ ∧
+    Lemire.computeFloat FTy.f32 27 (2 ^ 64 - 1) false = .ok ⟨0, 255⟩ ∧
+    Lemire.computeFloat FTy.f64 (-343) 5 false = .ok ⟨0, 0⟩ := by decide +kernel
+/-- the wrapper's hypothesis is satisfiable: `lemire` answers validly for a truncated mantissa … -/
+example : Lemire.lemire FTy.f64 ⟨1234567890123456789, 5, false, true⟩ false = .ok ⟨2854998426820717, 1099⟩ := by
+  decide +kernel
+/-- … and declines when `w` and `w + 1` round differently (marker: negative exponent) -/
+example : Lemire.lemire FTy.f64 ⟨9007199254740993, 0, false, true⟩ false = .ok ⟨9223372036854776832, -31703⟩ := by
+  decide +kernel
+
+/-! ## Bellerophon (decimal, `compact` builds) -/
+
+/-- **C01.5' `bellerophon_sound`** (**complete** on the model): a valid non-lossy answer of `bellerophon` for
+the mantissa `w` is `roundNE x` for the true value `x` of the literal: `x = w·10^e` when nothing was truncated,
+any `x ∈ [w, w+1)·10^e` when `many_digits` is set (`TrueValue`). Hypothesis for truncated mantissas:
+`w ≥ 2^44` — `parse_number` sets `many_digits` only after accumulating 19 digits (`w ≥ 10^18`), and below `2^44`
+the cap `min(ctlz + 1, 20)` of the booked truncation error would be reached.
+Ingredients: the table facts of `Proof.BellTables.bellCheck` (kernel-evaluated on the model's accessors,
+i.e. tables **and** exponent formula), `mul` = exact product rounded half-up, the error accounting against the
+*truncated* large powers (`scale_bound`), and `error_is_accurate` ⇒ same rounding for every value within the
+booked errors (`accurate_round`; the booked eighths are compared as whole units, which is what covers the
+under-booked table error). -/
+theorem bellerophon_sound (F : FTy) (hF : IsLemireFloat F) (n : Num) (hw : n.mantissa < 2 ^ 64)
+    (hmw : n.manyDigits = true → 2 ^ 44 ≤ n.mantissa) (num den : Nat) (hd : 0 < den)
+    (htv : LexVerif.Proof.Bell.TrueValue 10 n num den) {fp : ExtendedFloat80}
+    (h : Bellerophon.bellerophon F (Gen.Bellerophon.CompactRadix.powers 10) n false = .ok fp) (hv : 0 ≤ fp.exp) :
+    extendedToFloat F fp = roundNE F.fmt num den := by
+  have hc := LexVerif.Proof.Bell.bellFacts_of
+    (LexVerif.Proof.Bell.bellCheck_compact 10 (by decide))
+  rcases hF with h' | h' <;> subst h'
+  · exact LexVerif.Proof.Bell.bellerophon_sound_all layout_f64 (by decide) hc n hw hmw num den hd htv h hv
+  · exact LexVerif.Proof.Bell.bellerophon_sound_all layout_f32 (by decide) hc n hw hmw num den hd htv h hv
+
+/-- the untruncated case in closed form -/
+theorem bellerophon_sound_untruncated (F : FTy) (hF : IsLemireFloat F) (n : Num) (hmany : n.manyDigits = false)
+    (hw : n.mantissa < 2 ^ 64) {fp : ExtendedFloat80}
+    (h : Bellerophon.bellerophon F (Gen.Bellerophon.CompactRadix.powers 10) n false = .ok fp) (hv : 0 ≤ fp.exp) :
+    extendedToFloat F fp =
+      roundNE F.fmt (powFrac 10 n.exponent n.mantissa).1 (powFrac 10 n.exponent n.mantissa).2 := by
+  have hc := LexVerif.Proof.Bell.bellFacts_of
+    (LexVerif.Proof.Bell.bellCheck_compact 10 (by decide))
+  rcases hF with h' | h' <;> subst h'
+  · exact LexVerif.Proof.Bell.bellerophon_untruncated_sound layout_f64 (by decide) hc n hmany hw h hv
+  · exact LexVerif.Proof.Bell.bellerophon_untruncated_sound layout_f32 (by decide) hc n hmany hw h hv
+
+/-- `bellerophon` never panics (remainder by `step`, three checked table indices) -/
+theorem bellerophon_no_panic (F : FTy) (n : Num) (lossy : Bool) :
+    Bellerophon.bellerophon F (Gen.Bellerophon.CompactRadix.powers 10) n lossy ≠ .panic :=
+  LexVerif.Proof.Bell.bellerophon_no_panic
+    (LexVerif.Proof.Bell.bellFacts_of (LexVerif.Proof.Bell.bellCheck_compact 10 (by decide))) n lossy
+
+/-- the hypothesis on truncated mantissas holds for what `parse_number` produces: 19 significant digits -/
+example : (2 : Nat) ^ 44 ≤ 10 ^ 18 := by decide
+
+/-- non-vacuity of the truncated case: `3000000000000000000…e7` with more digits following (`many_digits`):
+`bellerophon` answers validly, and `TrueValue` holds e.g. for the literal `30000000000000000005e6` -/
+example : Bellerophon.bellerophon FTy.f64 (Gen.Bellerophon.CompactRadix.powers 10)
+      ⟨3000000000000000000, 7, false, true⟩ false = .ok ⟨2481319682245593, 1107⟩ ∧
+    LexVerif.Proof.Bell.TrueValue 10 ⟨3000000000000000000, 7, false, true⟩ (30000000000000000005 * 10 ^ 6) 1 := by
+  refine ⟨by decide +kernel, ?_⟩
+  unfold LexVerif.Proof.Bell.TrueValue
+  decide +kernel
+
+/-- non-vacuity: a decided and an undecided decimal case (values from the compiled crate, op `bel`) -/
+example : Bellerophon.bellerophon FTy.f64 (Gen.Bellerophon.CompactRadix.powers 10) ⟨12345, 10, false, false⟩ false =
+      .ok ⟨3397200372629504, 1069⟩ ∧
+    Bellerophon.bellerophon FTy.f64 (Gen.Bellerophon.CompactRadix.powers 10)
+        ⟨9007199254740993, 0, false, false⟩ false = .ok ⟨9223372036854776832, -31703⟩ ∧
+    Bellerophon.bellerophon FTy.f64 (Gen.Bellerophon.CompactRadix.powers 10)
+        ⟨9007199254740993, 300, false, false⟩ false = .ok ⟨0, 2047⟩ := by
+  decide +kernel
 
 end LexVerif.Props.C01
